@@ -90,15 +90,24 @@ def _below_dirs(dirs, upto, p):
     return z3.Exists([j_], z3.And(0 <= j_, j_ < upto, F.rglob_all(dirs.arr[j_])[p]))
 
 
+def _listed(L):
+    v = L.listed
+    return v.t if isinstance(v, VSet) else z3.K(PATH.sort(), z3.BoolVal(False))
+
+
 it.loop(0, LoopSpec(lambda L: [
     ("yielded=={members enumerated below the directories so far}",
      z3.ForAll([p_], L.yielded.t[p_] == z3.And(_below_dirs(L.args.self._directories, L.i, p_),
-                                               member(L.args.self._directories, L.args.self._excludes.t, p_))))]))
+                                               member(L.args.self._directories, L.args.self._excludes.t, p_)))),
+    ("listed==yielded (what has been listed is not listed again)", z3.ForAll([p_], _listed(L)[p_] == L.yielded.t[p_]))],
+    kinds={"listed": SetOf(PATH)}))
 it.loop(1, LoopSpec(lambda L: [
     ("yielded=={members of earlier directories}+{members seen in this directory}",
      z3.ForAll([p_], L.yielded.t[p_] == z3.And(
          z3.Or(_below_dirs(L.args.self._directories, L.outer.i, p_), L.seen.t[p_]),
-         member(L.args.self._directories, L.args.self._excludes.t, p_))))]))
+         member(L.args.self._directories, L.args.self._excludes.t, p_)))),
+    ("listed==yielded", z3.ForAll([p_], _listed(L)[p_] == L.yielded.t[p_]))],
+    kinds={"listed": SetOf(PATH)}))
 
 
 @it.ensures
